@@ -353,6 +353,49 @@ CONFIG = [
      {'locks': {}, 'calls': {'self._constraint.extracted_datetime':
                              'extracted_datetime',
                              'self._read_line': 'read_line'}}),
+    ('sequence_search', 'searchkit/task.py', 'SearchTask._sequence_search',
+     {'locks': {},
+      'calls': {'seq_def.s_start.run': 'start_run',
+                'seq_def.s_end.run': 'end_run',
+                'seq_def.s_body.run': 'body_run',
+                'sequence_results.remove': 'results_remove',
+                'sequence_results.add': 'results_add',
+                'seq_def.reset': 'def_reset', 'seq_def.start': 'def_start',
+                'seq_def.stop': 'def_stop'},
+      'cells': {'seq_def.started': 'started', 'seq_def.s_end': 's_end',
+                'seq_def.s_body': 's_body',
+                'seq_def.current_section_id': 'section_id'}}),
+    ('process_sequence_results', 'searchkit/task.py',
+     'SearchTask._process_sequence_results',
+     {'locks': {},
+      'calls': {'seq_def.s_end.run': 'end_run_empty',
+                'sequence_results.add': 'results_add',
+                'self.results_buffer.append': 'buffer_append',
+                'self._flush_results_buffer': 'flush'},
+      'cells': {'seq_def.started': 'started', 'seq_def.s_end': 's_end',
+                'seq_def.current_section_id': 'section_id',
+                'filter_section_id': 'filter'}}),
+    ('searchdef_run', 'searchkit/searchdef.py', 'SearchDef.run',
+     {'locks': {},
+      'calls': {'self.hint.search': 'hint_search',
+                'pattern.match': 'pattern_match'},
+      'cells': {'self.hint': 'hint', 'self.patterns': 'patterns'}}),
+    ('simple_search', 'searchkit/task.py', 'SearchTask._simple_search',
+     {'locks': {},
+      'calls': {'search_def.run': 'def_run', 'SearchResult': 'new_result',
+                'self.results_buffer.append': 'buffer_append',
+                'self._flush_results_buffer': 'flush'}}),
+    ('flush_results_buffer', 'searchkit/task.py',
+     'SearchTask._flush_results_buffer',
+     {'locks': {},
+      'calls': {'self.put_result': 'put_result',
+                'self.results_buffer.pop': 'buffer_pop',
+                'QueueTransitBuffer': 'slice_buffer'},
+      'cells': {'self.results_buffer': 'buffer'}}),
+    ('store_result', 'searchkit/result.py', 'SearchResult.store_result',
+     {'locks': {},
+      'calls': {'self._save_part': 'save_part', 'result.groups': 'groups',
+                'result.group': 'group'}}),
 ]
 
 ARG0 = {'Acq', 'Rel', 'Rd', 'Wr', 'Call', 'Handler', 'RaiseE'}
